@@ -487,9 +487,21 @@ Theorem helper_with_walrus_by_name hce l : has_walrus l = true -> helper_capval 
 Proof. unfold helper_capval. intros ->. reflexivity. Qed.
 
 Theorem helper_without_walrus hce l :
-  has_walrus l = false ->
+  has_walrus l = false -> bare_return l = false ->
   helper_capval hce l = match rewrite_captured hce l with Ok l' => CFun (Some l') | Err _ => CFun None end.
-Proof. unfold helper_capval. intros ->. reflexivity. Qed.
+Proof. unfold helper_capval. intros -> ->. reflexivity. Qed.
+
+(* a helper that cannot be rewritten - `return` without a value: its Lambda has no body node - stays by name: whatever
+   goes wrong while a captured callable is turned into a lambda, the call is left alone, never an exception *)
+Theorem helper_bare_return_by_name hce l : bare_return l = true -> helper_capval hce l = CFun None.
+Proof. unfold helper_capval. intros ->. destruct (has_walrus l); reflexivity. Qed.
+
+(* [helper_capval] never fails: an inlinable lambda or "by name" *)
+Theorem helper_capval_total hce l : helper_capval hce l = CFun None \/ exists l', helper_capval hce l = CFun (Some l').
+Proof.
+  unfold helper_capval. destruct (has_walrus l); [left; reflexivity|]. destruct (bare_return l); [left; reflexivity|].
+  destruct (rewrite_captured hce l); [right; eauto | left; reflexivity].
+Qed.
 
 (* so its calls stay calls by name, like those of any callable the snapshot marks as not inlinable ([CFun None]:
    source not recovered, a bound method (F34), a callable with __wrapped__ (F35), a helper being expanded) *)
